@@ -84,13 +84,14 @@ Definition psends (p : tparams) (cancel : option Z) : list (Z * Z) :=
 Definition cancel_tie (p : tparams) (c : Z) : bool :=
   existsb (fun t => psend_time p t =? c) (zrange (tp_first p) (Z.to_nat (count p))).
 
-Fixpoint prun (fuel : nat) (p : tparams) (T : Z) (pend : list entry) (cancel : option Z)
+(** [D] is the instant the group context ends: MaxTimeout, or an earlier external cancellation *)
+Fixpoint prun (fuel : nat) (p : tparams) (D : Z) (T : Z) (pend : list entry) (cancel : option Z)
               (rs : slots) (acc : list probe) : tout :=
   match fuel with
   | O => TOutOfFuel
   | S fuel' =>
-      if T =? pdeadline p then TTie
-      else if pdeadline p <? T then
+      if T =? D then TTie
+      else if D <? T then
         TDone (mkTR (clip (tp_first p) rs) (rev acc) (psends p cancel) T)
       else
         let R := T + tp_poll p in
@@ -99,16 +100,16 @@ Fixpoint prun (fuel : nat) (p : tparams) (T : Z) (pend : list entry) (cancel : o
             if a <=? R then
               let T' := Z.max T a in
               let pend' := remove_nth i pend in
-              if e_kind e =? 1 then prun fuel' p T' pend' cancel rs acc
+              if e_kind e =? 1 then prun fuel' p D T' pend' cancel rs acc
               else
                 let pr := mkProbe (e_ttl e) (e_ip e) (T' - origin (psent p cancel) e) (e_dest e) in
                 if negb (valid_probe (tp_first p) (tp_last p) pr) then TError (rev (pr :: acc))
                 else
                 let cancel' := match cancel with Some c => Some c | None => if e_dest e then Some T' else None end in
                 if (match cancel with None => e_dest e && cancel_tie p T' | Some _ => false end) then TTie
-                else prun fuel' p T' pend' cancel' (write rs pr) (pr :: acc)
-            else prun fuel' p R pend cancel rs acc
-        | None => prun fuel' p R pend cancel rs acc
+                else prun fuel' p D T' pend' cancel' (write rs pr) (pr :: acc)
+            else prun fuel' p D R pend cancel rs acc
+        | None => prun fuel' p D R pend cancel rs acc
         end
   end.
 
@@ -121,7 +122,17 @@ Definition params_ok (p : tparams) : bool :=
 
 Definition parallel_run (p : tparams) (script : list entry) : tout :=
   if negb (params_ok p) then TFail
-  else prun (pfuel p script) p 0 script None (init (tp_last p)) [].
+  else prun (pfuel p script) p (pdeadline p) 0 script None (init (tp_last p)) [].
+
+(** the caller's context is cancelled at instant [c]: the group context ends at min(MaxTimeout, c);
+    the sender leaves at its next cancellation check *)
+Definition sender_exit (p : tparams) (c : Z) : Z :=
+  if tp_delay p =? 0 then 0
+  else Z.min (tp_delay p * count p) (tp_delay p * ((c + tp_delay p - 1) / tp_delay p)).
+
+Definition parallel_run_cancelled (p : tparams) (script : list entry) (c : Z) : tout :=
+  if negb (params_ok p) then TFail
+  else prun (pfuel p script) p (Z.min (pdeadline p) c) 0 script None (init (tp_last p)) [].
 
 (** ---------------- serial engine ---------------- *)
 Definition lookup (sends : list (Z * Z)) (t : Z) : option Z :=
